@@ -364,7 +364,7 @@ int main(void)
         strncpy(prog[nprog++], line, 255);
     }
     struct vs_config c = { 0 };
-    c.seed = (uint64_t)seed; c.trace = trace; c.schedule = sched; c.nschedule = nsched; c.mode = 1; c.max_steps = 400000; c.pct_depth = pct; c.events = 1;
+    c.seed = (uint64_t)seed; c.trace = trace; c.schedule = sched; c.nschedule = nsched; c.mode = 1; c.max_steps = 400000; c.pct_depth = pct; c.events = 1; c.clock_step = 20; c.pct_aging = 256;
     vs_init(&c);
     vs_on_stuck(on_stuck);
     vs_register_lib("acquire-driver-common", mock_lib_load);
